@@ -32,6 +32,10 @@ MEM_SNIPPETS = [
     "DUP1 MLOAD DUP2 MLOAD ADD SWAP1 MSTORE", "DUP2 DUP2 MSTORE DUP2 DUP2 MSTORE POP POP",
     "PUSH 7 PUSH 0 MSTORE PUSH 20 PUSH 0 KECCAK256 PUSH 8 PUSH 0 MSTORE PUSH 20 PUSH 0 KECCAK256",
     "PUSH 7 PUSH 1f MSTORE PUSH 20 PUSH 20 KECCAK256", "PUSH 7 PUSH 40 MSTORE PUSH 20 PUSH 20 KECCAK256",
+    # the same value written twice: commutes for storage and for single bytes, not for words at close offsets
+    "DUP3 DUP3 MSTORE SWAP2 DUP3 PUSH 10 ADD MSTORE", "DUP3 DUP3 MSTORE DUP3 DUP5 MSTORE", "DUP3 DUP3 SSTORE SWAP2 DUP3 PUSH 10 ADD SSTORE",
+    "DUP3 DUP3 MSTORE8 SWAP2 DUP3 PUSH 10 ADD MSTORE8", "DUP3 DUP3 MSTORE8 DUP3 DUP5 MSTORE8", "DUP3 DUP3 SSTORE DUP3 DUP5 SSTORE",
+    "DUP1 MLOAD SWAP1 MSTORE8", "DUP1 MLOAD DUP2 MSTORE8 DUP1 MLOAD",
 ]
 OPTSETS = [a + b for a in ([], ["-storage"], ["-partition"]) for b in ([], ["-no-simplification"])]
 
